@@ -9,6 +9,7 @@ from ..core import AnalysisError, norm
 from .. import nnm, symx, sign
 from ..symx import eval_val, val_atoms, rows, S
 from ..nnm_rules import FIN, mu, W, SX, J, x, u, N, t
+from .. import nnm_rules
 
 META = dict(
     text="For each shipped estimator / bet the returned expression is extracted from the AST and its range is "
@@ -90,6 +91,7 @@ def store_obligations(chk, name, tx, stores, fd, role, prove):
 
 def run(chk):
     idx = chk.idx
+    nnm_rules.rule_stateless(chk, "C13.R9")  # first: its refutations stand even if a later rule cannot read the code
     reg = nnm.registry(idx)
     chk.explain(
         "R1: every estimator's return value r satisfies 0 <= r <= u; R2: shrink_trunc's return is strictly above the "
@@ -230,6 +232,13 @@ def run(chk):
            "the default initial bet lam is one and the same number at every place that supplies it, within [0, 1/u] for the default u "
            "(not an expression in t or u, which the null mean leaves behind as the sample is drawn)", node=init, strength="N",
            defaults={k: norm(v) for k, v in sites.items()}, default_u=u_def)
+    # R6 also: the ranges are relative to u, and the default alternative eta = t + (u - t)/2 is fixed from the u the test object
+    # is *constructed* with: the one place where that differs from 1, the super-majority assertion, constructs its test with the
+    # assorter's own bound 1/(2 share) (C02.R2 / C06.R6, three sites agree)
+    from . import c02 as _c02
+    _n0 = len(chk.obs)
+    chk.borrow(_c02.r3_supermajority, {"C02.R2": "C13.R6"})
+    chk.obs = chk.obs[:_n0] + [o for o in chk.obs[_n0:] if o.rule != "C13.R6" or o.key == "three-sites-agree"]
     # R8: the ranges above speak about eta_j and lambda_j *as they enter the factor* 1 + lambda_j (x_j - mu_j) resp. the ALPHA factor:
     # the factor identity (C12.R1) ties the test statistic to them
     from .. import nnm_rules as _NR
